@@ -32,13 +32,16 @@ RULE = (
     "Cls.compose(component subgraphs) == g as labelled graph; for arbitrary "
     "pieces atoms / bonds are the union with coherent neighbour sets and for "
     "every attribute present in a later piece the later value wins, and the "
-    "descriptor / change tables equal the later-wins union of the pieces'. "
+    "descriptor / change tables equal the later-wins union of the pieces'; "
+    "the pieces themselves are unchanged afterwards; components rebuilt in "
+    "the smallest class that can hold them (a plain molecule handed to a "
+    "reaction-graph compose) still compose to the original. "
     "Non-trivial: a descriptor or change straddles the cut, S is a one-shot "
     "iterator, or the graph has >= 2 components; distinct = SHA-1."
 )
 ASSUMPTIONS = [
     "S is a subset of the atoms; pieces passed to compose are graphs of the "
-    "class compose is called on",
+    "class compose is called on or of one of its base classes",
     "attributes present only in an earlier overlapping piece are not "
     "asserted (docstring ambiguous between replace and merge)",
 ]
@@ -197,6 +200,36 @@ def check_case(ctx, case):
     if d:
         raise Violation(f"C17/compose-components/{diff_kind(d)}",
                         f"compose(component subgraphs) vs original: {d}")
+    # ---- the same with every component rebuilt in the smallest class that
+    # can hold it (a spectator molecule handed to a reaction-graph compose)
+    order = list(ma.atoms)
+    lower, low_parts = 0, []
+    for c in sorted(wantc, key=lambda c_: min(order.index(a) for a in c_)):
+        sub = ma.subgraph(sorted(c, key=order.index))
+        reaction = any("reaction" in at for at in sub.bonds.values()) or \
+            sub.atom_changes or sub.bond_changes
+        stereo = sub.atom_stereo or sub.bond_stereo or sub.atom_changes or \
+            sub.bond_changes
+        small = ("SCRG" if reaction and stereo else "CRG" if reaction
+                 else "SMG" if stereo else "MG")
+        if small not in (cls, "MG" if cls == "MG" else small) or (
+                cls in ("SMG", "CRG") and small not in (cls, "MG")):
+            small = cls
+        if small != cls:
+            lower += 1
+        sub.cls = small
+        low_parts.append(rc.build(rc.from_model(sub)))
+    if lower:
+        with guard(f"C17/{cls}/compose-mixed-classes"):
+            whole2 = C.compose(low_parts)
+        d = snap_diff(snapshot(whole2, "C17/compose-mixed-classes"),
+                      ma.snapshot(), "exact")
+        if d:
+            raise Violation(
+                f"C17/compose-mixed-classes/{diff_kind(d)}",
+                f"{cls}.compose of components built as "
+                f"{[type(x).__name__ for x in low_parts]} vs original: {d}")
+        ctx.classes["compose:pieces-of-a-smaller-class"] += 1
     # ---- arbitrary (overlapping) pieces
     pieces = [p for p in case["pieces"] if p]
     if pieces:
@@ -219,6 +252,18 @@ def check_case(ctx, case):
         except Violation as v:
             raise Violation(v.sig, f"compose of pieces {pieces}: {v.msg}")
         pm = [models[s_].subgraph(p) for s_, p in zip(src, pieces)]
+        # composing must not touch what it was given
+        for k_, (piece, want_p) in enumerate(zip(pg, pm)):
+            try:
+                d = snap_diff(snapshot(piece, "C17/compose-input"),
+                              want_p.snapshot(), "exact")
+            except Violation as v:
+                raise Violation("C17/compose-modified-its-input/incoherent",
+                                f"piece {k_} {pieces[k_]}: {v.msg}")
+            if d:
+                raise Violation(
+                    f"C17/compose-modified-its-input/{diff_kind(d)}",
+                    f"piece {k_} {pieces[k_]} after compose: {d}")
         wantm = Model.compose(cls, pm)
         ws = wantm.snapshot()
         # structure: union of atoms and bonds
